@@ -31,6 +31,10 @@ type Req struct {
 	Rules   [][2]string `json:"rules"` // enum rules name, text: AddRule'd to every schema and every type
 	Docs    []string    `json:"docs"`  // documents validated against every schema that passes Check
 	Example bool        `json:"ex"`    // call Example() and Validate(Example()) on every schema that passes Check
+	// Linked: "the way an API project registers its types": for every schema a fresh universe of type
+	// objects is built in which EVERY type has every type (itself included) AddType'd; a SelfAdd schema
+	// IS the universe's object of that name, any other schema gets the universe's objects added.
+	Linked bool `json:"linked,omitempty"`
 }
 
 type SchemaRes struct {
@@ -110,7 +114,46 @@ func serve(req *Req) Res {
 			out.Used = u
 			return ErrString(err)
 		})
+		if req.Linked {
+			e := call(func() string {
+				uni := map[string]*jschema.Schema{}
+				for _, t := range req.Types {
+					if sr.SelfAdd && t[0] == sr.Name {
+						uni[t[0]] = s
+						continue
+					}
+					ts := jschema.New(t[0], t[1])
+					for _, r := range req.Rules {
+						if err := ts.AddRule(r[0], enum.New(r[0], r[1])); err != nil {
+							return "rule " + r[0] + ": " + ErrString(err)
+						}
+					}
+					uni[t[0]] = ts
+				}
+				for _, t := range req.Types {
+					for _, u := range req.Types {
+						if err := uni[t[0]].AddType(u[0], uni[u[0]]); err != nil {
+							return "type " + u[0] + " to " + t[0] + ": " + ErrString(err)
+						}
+					}
+				}
+				if !sr.SelfAdd {
+					for _, t := range req.Types {
+						if err := s.AddType(t[0], uni[t[0]]); err != nil {
+							return "type " + t[0] + ": " + ErrString(err)
+						}
+					}
+				}
+				return "OK"
+			})
+			if e != "OK" {
+				out.AddErr = e
+			}
+		}
 		for _, t := range req.Types {
+			if req.Linked {
+				break
+			}
 			t := t
 			e := call(func() string {
 				if sr.SelfAdd && t[0] == sr.Name {
